@@ -219,16 +219,23 @@ BmatBlockOffsets(cw, offs) == offs = [j \in 1..(Len(cw) - 1) |-> SumN(j, LAMBDA 
 \* ---------------------------------------------------------------------------
 \* CompositeBasis (composite_basis.py): cell->DOF tables stacked with offsets (none when equal_dofnum),
 \* basis functions of part m are zero in the fields of the other parts.
+\* The ORDER of the local functions inside the combination is representation (it is not observable through split /
+\* interpolate / assembly), so they are compared as a bag of (cell->DOF row, table of values).
 CompositeBasisOffsets(Bc, Bs, equal, coff) ==
   LET off(m) == IF equal = 1 THEN 0 ELSE SumN(m - 1, LAMBDA a : Bs[a].N)
-      boff(m) == SumN(m - 1, LAMBDA a : Bs[a].nb) IN
+      boff(m) == SumN(m - 1, LAMBDA a : Bs[a].nb)
+      zero == [k \in 1..Bc.nel |-> [q \in 1..Bc.nq |-> 0]]
+      partof(i) == CHOOSE m \in DOMAIN Bs : i > boff(m) /\ i <= boff(m) + Bs[m].nb
+      want == TLCEval([i \in 1..Bc.nb |->
+                LET m == partof(i)  j == i - boff(m) IN
+                <<[k \in 1..Bc.nel |-> Bs[m].edofs[j][k] + off(m)],
+                  [c \in 1..Bc.nc |-> IF c > coff[m] /\ c <= coff[m] + Bs[m].nc THEN Bs[m].phi[j][c - coff[m]] ELSE zero]>>])
+      got  == TLCEval([i \in 1..Bc.nb |-> <<Bc.edofs[i], Bc.phi[i]>>])
+  IN
   /\ Bc.N = (IF equal = 1 THEN Bs[1].N ELSE SumN(Len(Bs), LAMBDA a : Bs[a].N))
   /\ Bc.nb = SumN(Len(Bs), LAMBDA a : Bs[a].nb) /\ Bc.nel = Bs[1].nel /\ Bc.nq = Bs[1].nq /\ Bc.dx = Bs[1].dx
-  /\ \A m \in DOMAIN Bs : \A j \in 1..Bs[m].nb :
-        /\ \A k \in 1..Bc.nel : Bc.edofs[boff(m) + j][k] = Bs[m].edofs[j][k] + off(m)
-        /\ \A c \in 1..Bc.nc :
-             IF c > coff[m] /\ c <= coff[m] + Bs[m].nc THEN Bc.phi[boff(m) + j][c] = Bs[m].phi[j][c - coff[m]]
-             ELSE \A k \in 1..Bc.nel : \A q \in 1..Bc.nq : Bc.phi[boff(m) + j][c][k][q] = 0
+  /\ \A m \in DOMAIN Bs : Bs[m].nel = Bc.nel /\ Bs[m].nq = Bc.nq
+  /\ \A i \in 1..Bc.nb : Cardinality({i2 \in 1..Bc.nb : got[i2] = got[i]}) = Cardinality({i2 \in 1..Bc.nb : want[i2] = got[i]})
 
 \* ===========================================================================
 \* COOData transcriptions (0-based), used by the model MC_C19
